@@ -121,7 +121,7 @@ class FileDumper(DumperBase):
         # Finalise
         filename = temp_file.name
         temp_file.close()
-        self.write_file_to_output(filename, resource.res.source)
+        self.write_file_to_output(filename, resource_descriptor['path'])
         os.unlink(filename)
 
     def process_resource(self, resource: ResourceWrapper):
